@@ -60,14 +60,19 @@ func init() {
 		for _, s := range [][]int{{1}, {3}, {1, 2}, {2, 3}, {2, 1}, {2, 2, 2}} {
 			c := s[len(s)-1]
 			for _, n := range []int{c, 1, c + 1} {
-				p.Jobs = append(p.Jobs, Job{Harness: "opset13.H_C04_scaler", Case: map[string]interface{}{"shape": s, "n": n}})
+				p.Jobs = append(p.Jobs, Job{Harness: "opset13.H_C04_scaler", Case: map[string]interface{}{"shape": s, "n": n, "ns": n}})
+				// one of the two attributes a single value, the other per feature
+				if n > 1 {
+					p.Jobs = append(p.Jobs, Job{Harness: "opset13.H_C04_scaler", Case: map[string]interface{}{"shape": s, "n": 1, "ns": n}})
+					p.Jobs = append(p.Jobs, Job{Harness: "opset13.H_C04_scaler", Case: map[string]interface{}{"shape": s, "n": n, "ns": 1}})
+				}
 			}
 		}
 		p.Bounds = []string{
 			"exact real arithmetic (float elements as reals): every element, alpha, beta, coefficient, intercept, offset and scale is a solver variable; equality with the reference is an identity over the reals (nonlinear real arithmetic)",
 			"MatMul: 33 (37 thorough) operand shape pairs of rank 1..6 with extents {1,2,3}, both orders: vector.vector, vector.matrix, matrix.vector, stacks with broadcastable and non-broadcastable batch shapes, inner-dimension mismatches; each case applies the same operator instance to the same tensors twice",
 			"Gemm: (M,K,N) in 4 (7) size triples x transA x transB x C in {absent, scalar, (N), (1,N), (M,1), (M,N), (M), rank 3, (1)} x alpha/beta symbolic or default, plus ill-shaped A",
-			"LinearRegressor: targets 1..3 x features 1..3 x intercepts present/absent x batch 1..2 (instance applied twice); Scaler: X of rank 1..3, offset/scale of length C, 1 and C+1 (instance applied twice)",
+			"LinearRegressor: targets 1..3 x features 1..3 x intercepts present/absent x batch 1..2 (instance applied twice); Scaler: X of rank 1..3, offset/scale of length C, 1 and C+1, alike and mixed (1 with C) (instance applied twice)",
 		}
 		p.Outside = []string{"floating-point rounding (the identity is over the reals; the size of the rounding error is the standard dot-product bound and is not checked)", "extents > 3, rank > 5", "non-float element types (they must give the same result or an error: not exercised here)"}
 		p.Explanation = "MatMul/Gemm/LinearRegressor/Scaler Apply paths incl. broadcastTensors, batchedMatMul, incrementSlices executed symbolically; tensor.MatMul as a dot-product term builder over logical (stride-aware) element access"
